@@ -139,7 +139,9 @@ func errIDs(es []error) string {
 	var out []int64
 	for _, e := range es {
 		var k sarama.KError
-		if errors.As(e, &k) {
+		if errors.Is(e, sarama.ErrMessageTooLarge) {
+			out = append(out, 1000)
+		} else if errors.As(e, &k) {
 			out = append(out, int64(k))
 		} else {
 			out = append(out, -999)
